@@ -1,6 +1,7 @@
 //! Passthrough-filesystem monitors: C05 C06 C08 C09 C15 C16 C18 (and the stack half of C12).
 mod c08;
 mod c15;
+mod c16;
 mod c18;
 mod env;
 mod kc;
@@ -14,6 +15,7 @@ fn main() {
     match args.prop.as_str() {
         "C08" => c08::run(&args, &mut rep),
         "C15" => c15::run(&args, &mut rep),
+        "C16" => c16::run(&args, &mut rep),
         "C18" => c18::run(&args, &mut rep),
         other => {
             eprintln!("ptfs: unknown property {}", other);
